@@ -2457,7 +2457,7 @@ def _stream_sequences(ctx, scale=1, full=False, stream_prefix="seq"):
                      or t == "modes" or t.startswith("rcpatch:") and ":headers:" in t or t.startswith("sparse:") or t.startswith("unchanged:pack:") or t.startswith("submodule:")
                      or (t.startswith("kinds:") and "gitlink" in t and t.endswith((":p:mixed", ":p:soft")))
                      or (t.startswith("kinds:leading") and ctx.rng.random() < 0.25)
-                     or ctx.rng.random() < (0.04 if t.startswith("kinds:") else 0.08 if t.startswith("unchanged:") else 0.2)]
+                     or ctx.rng.random() < (0.04 if t.startswith("kinds:") else 0.06 if t.startswith("unchanged:") else 0.14)]
         ctx.extra_cov["fixed_scenarios_run"] = len(fixed)
         for tag, case in fixed:
             run_scenario(ctx, w, stream_prefix + ".fixed", case, tag.split(":")[0], n)
